@@ -1848,3 +1848,50 @@ func c08successNameFree(c *core.Check) {
 	c.Decide(found != "", "synth-success-name-free", key, "generator/golang/scope.go", "a throws field named success is handled in "+found,
 		"nothing compares a throws field's name with the synthesized \"success\": `i32 g() throws (1: E success)` gives the result struct two fields called Success (redeclared Success_DEFAULT / GetSuccess), thriftgo exits 0 and the generated package does not compile")
 }
+
+// ---------------------------------------------------------------------------------------------------------------------
+// C01: several IDL files may share one Go namespace and then land in one Go package. Rule: the fastgo backend, which writes
+// one k-<file>.go per IDL file, declares no package-level identifier with a fixed name in every file, and imports no
+// include that lives in the file's own package.
+func c01fastgoPerFile(c *core.Check) {
+	fd := c.Prog.FuncDecl(fastgoRel, "FastGoBackend.GenerateOne")
+	key := fastgoRel + ".(FastGoBackend).GenerateOne"
+	if fd == nil {
+		c.Unknown("anchor", key, "", "missing")
+		return
+	}
+	info := c.Prog.Pkg(fastgoRel).TypesInfo
+	var fixed []string
+	selfCheck := false
+	ast.Inspect(fd.Body, func(n ast.Node) bool {
+		switch x := n.(type) {
+		case *ast.CallExpr:
+			fn := rules.Callee(info, x)
+			if fn == nil || fn.Pkg() == nil || fn.Pkg().Path() != "fmt" || !strings.HasPrefix(fn.Name(), "Fprint") || len(x.Args) < 2 {
+				return true
+			}
+			s, ok := rules.ConstString(info, x.Args[1])
+			if !ok {
+				return true
+			}
+			t := strings.TrimSpace(s)
+			for _, kw := range []string{"var ", "func ", "type ", "const "} {
+				if strings.HasPrefix(t, kw) && !strings.Contains(strings.SplitN(t, "=", 2)[0], "%") && !strings.HasPrefix(t, "var (") {
+					name := strings.Fields(t[len(kw):])
+					if len(name) > 0 && len(x.Args) == 2 {
+						fixed = append(fixed, kw+name[0])
+					}
+				}
+			}
+		case *ast.BinaryExpr:
+			if (x.Op == token.EQL || x.Op == token.NEQ) && strings.Contains(rules.ExprString(x), "ImportPath") {
+				selfCheck = true
+			}
+		}
+		return true
+	})
+	c.Decide(len(fixed) == 0, "fastgo-per-file-names-unique", key+"/package-level-names", c.Prog.Rel(fd.Pos()), "no fixed package-level name is declared per file",
+		fmt.Sprintf("every generated k-<file>.go declares %v: two IDL files of one Go namespace (an include in the same namespace is enough) give a package that does not compile (redeclared), although thriftgo exits 0", fixed))
+	c.Decide(selfCheck, "fastgo-per-file-names-unique", key+"/self-import", c.Prog.Rel(fd.Pos()), "includes of the file's own package are not imported",
+		"every include is imported without comparing its import path with the file's own: an include that shares the Go namespace makes the generated package import itself (import cycle)")
+}
